@@ -150,10 +150,12 @@ def rnd_history(rng, maxops, fmt="U"):
             ops.append(("D", k))
         elif r < 0.85:
             ops.append(("T", [rng.randint(1, 127) for _ in range(rng.randint(0, 9))]))
-        elif r < 0.93:
+        elif r < 0.90:
             ops.append(("G", k))
-        else:
+        elif r < 0.95:
             ops.append(("H", k))
+        else:
+            ops.append(("R",))       # save and load again (serialize -> from_bytes), then go on editing the LOADED archive
     return ops
 
 
@@ -169,7 +171,7 @@ def parse_hist(line):
     t = line.split()
     fmt, endian, ops, i = t[1], t[2], [], 3
     while i < len(t):
-        n = 3 if t[i] == "S" else 2
+        n = 3 if t[i] == "S" else (1 if t[i] == "R" else 2)
         ops.append(tuple([t[i]] + [list(unL(x)) for x in t[i + 1:i + n]]))
         i += n
     return fmt, endian, ops
@@ -290,7 +292,12 @@ class C06(PropertyCheck):
         for (f, e) in combos:
             for ops in ([], [("T", [84])], [("S", [107], [0x5C, 0x6E])], [("S", [107], [97]), ("D", [107])],
                         [("S", [97], [1]), ("S", [98], [2]), ("S", [99], []), ("S", [97], [3]), ("D", [98]), ("S", [98], [0x1F600 if f == "U" else 0x7E])],
-                        [("S", [], [0xFEFF if f == "U" else 0x7F]), ("D", [120]), ("S", [], [0x5C, 0x5C, 0x6E])]):
+                        [("S", [], [0xFEFF if f == "U" else 0x7F]), ("D", [120]), ("S", [], [0x5C, 0x5C, 0x6E])],
+                        # a LOADED archive edited without any set_message (seeded change C06-3 returned the loaded bytes while
+                        # the dirty flag was clear; only set_message sets it)
+                        [("S", [97], [1]), ("S", [98], [2]), ("R",), ("D", [97])],
+                        [("T", [84]), ("S", [97], [1]), ("R",), ("T", [85, 86])],
+                        [("S", [97], [1]), ("R",), ("D", [97]), ("R",), ("S", [98], [2]), ("R",), ("T", [87]), ("D", [98])]):
                 cases.append(Case(render_hist(f, e, ops), "history"))
         for _ in range(500 if quick else 8000):
             f = "U" if rng.random() < 0.7 else "S"
